@@ -229,7 +229,18 @@ class Evaluator:
             raise Unknown("subscript on unsupported value")
 
     def _e_JoinedStr(self, e):
-        return Opaque("fstring")
+        parts = []
+        for v in e.values:
+            if isinstance(v, ast.Constant):
+                parts.append(str(v.value))
+            elif isinstance(v, ast.FormattedValue) and v.conversion == -1 and v.format_spec is None:
+                x = self.eval(v.value)
+                if isinstance(x, Opaque) or not isinstance(x, (str, int, float, bool, type(None))):
+                    return Opaque("fstring")
+                parts.append(str(x))
+            else:
+                return Opaque("fstring")
+        return "".join(parts)
 
     # comprehensions over concrete (finite) iterables
     def _comp(self, generators, emit):
